@@ -86,6 +86,14 @@ class Registry:
                 return t
         return None
 
+    def lookup2(self, cls, meth, *tables):
+        """most specific class of the MRO of cls that defines meth in any of the tables"""
+        for c in self.mro(cls) if cls else []:
+            k = f"{c}.{meth}"
+            if any(k in t for t in tables):
+                return k
+        return None
+
     def lookup(self, cls, meth, table):
         """find 'C.meth' in table along the MRO of cls"""
         for c in self.mro(cls) if cls else []:
